@@ -22,7 +22,8 @@
                   MaximumNumberOfBlockListedSessions)
      BlockA       blockProvider after MaximumNumberOfBlockListedSessions
      AddCU        addUsedComputeUnits (cswp.Lock) + SetUsageForSession (LatestRelayCu, RelayNum++) / Free on
-                  MaxComputeUnitsExceeded
+                  MaxComputeUnitsExceeded.  With SplitReserve = TRUE (variant, not /repo) the limit check stays in
+                  AddCU and the addition is the separate step AddApply (pc "addcu2")
      Done / DoneInc / Fail1   the part of OnSession* that runs while the session lock is held, up to Free()
      Fail2        decreaseUsedComputeUnits (after Free - the window in which used > sum of sessions)
      Fail3        blockProvider (csm.lock.Lock)
@@ -47,7 +48,10 @@ CONSTANTS Provs,        \* provider addresses (strings)
           FailKinds,    \* subset of {"plain","block","report","sync"}
           PairingSets,  \* pairing lists UpdateAllProviders may install
           Supp,         \* providers whose endpoint supports the addon "a1"
-          Addons        \* subset of BOOLEAN: FALSE = base request, TRUE = request for addon "a1"
+          Addons,       \* subset of BOOLEAN: FALSE = base request, TRUE = request for addon "a1"
+          SplitReserve  \* FALSE = the code of /repo: addUsedComputeUnits checks the limit and adds in ONE critical section.
+                        \* TRUE  = design-level variant only: check (own RLock) and add (Lock) are two steps - a
+                        \*         check-then-act race that TLC shows to break Bound (ConsumerSessions_split.cfg)
 
 VARIABLES epoch,        \* csm.currentEpoch
           pairing,      \* addresses of csm.pairing
@@ -269,18 +273,33 @@ BlockA(r) ==
   /\ rs' = [rs EXCEPT ![r].pc = "select"]
   /\ UNCHANGED <<epoch, pairing, prevBlocked, resets, objVars, bgVars, nops>>
 
+\* the reservation itself: used += cu, LatestRelayCu, RelayNum++ ; GetSessions returns the session
+Reserve(r) ==
+  LET R == rs[r]
+      o == <<R.p, R.e>> IN
+  /\ used' = [used EXCEPT ![o] = @ + R.cu]
+  /\ veHi' = [veHi EXCEPT ![o] = Max(@, R.ve)]
+  /\ sess' = [sess EXCEPT ![o][R.sid].lcu = R.cu, ![o][R.sid].rn = @ + 1]
+  /\ rs' = [rs EXCEPT ![r].pc = "held", ![r].res = "ok"]
+
 AddCU(r) ==
   /\ rs[r].pc = "addcu"
   /\ LET R == rs[r]
          o == <<R.p, R.e>> IN
      IF CuFits(used[o], R.cu, R.ve)
-     THEN /\ used' = [used EXCEPT ![o] = @ + R.cu]
-          /\ veHi' = [veHi EXCEPT ![o] = Max(@, R.ve)]
-          /\ sess' = [sess EXCEPT ![o][R.sid].lcu = R.cu, ![o][R.sid].rn = @ + 1]
-          /\ rs' = [rs EXCEPT ![r].pc = "held", ![r].res = "ok"]
+     THEN IF SplitReserve
+          THEN /\ rs' = [rs EXCEPT ![r].pc = "addcu2"]       \* variant: the check passed, the lock is released
+               /\ UNCHANGED <<used, veHi, sess>>
+          ELSE Reserve(r)
      ELSE /\ sess' = [sess EXCEPT ![o][R.sid].lk = 0]                 \* consumerSession.Free(nil)
           /\ rs' = [rs EXCEPT ![r].pc = "select", ![r].ign = R.ign \cup {R.p}]
           /\ UNCHANGED <<used, veHi>>
+  /\ UNCHANGED <<csmVars, bstat, gdone, bgVars, nops>>
+
+\* only reachable with SplitReserve = TRUE: the addition after the separately locked check
+AddApply(r) ==
+  /\ rs[r].pc = "addcu2"
+  /\ Reserve(r)
   /\ UNCHANGED <<csmVars, bstat, gdone, bgVars, nops>>
 
 \* ---------------------------------------------------------------- OnSessionDone / OnSessionDoneIncreaseCUOnly
@@ -373,7 +392,7 @@ CheckUnblock(e) ==
 
 RelayStep(r) ==
   \/ \E cu \in CUs, ve \in 0..MaxVE, fresh \in BOOLEAN, ad \in Addons : Start(r, cu, ve, fresh, ad)
-  \/ Validate(r) \/ ReadEpoch(r) \/ Select(r) \/ SelectBlk(r) \/ Acquire(r) \/ BlockA(r) \/ AddCU(r)
+  \/ Validate(r) \/ ReadEpoch(r) \/ Select(r) \/ SelectBlk(r) \/ Acquire(r) \/ BlockA(r) \/ AddCU(r) \/ AddApply(r)
   \/ Done(r) \/ DoneInc(r) \/ (\E k \in FailKinds : Fail1(r, k)) \/ Fail2(r) \/ Fail3(r)
 
 Next ==
@@ -385,7 +404,7 @@ Next ==
 Spec == Init /\ [][Next]_vars
 
 \* ---------------------------------------------------------------- properties (C28)
-Holding(r) == rs[r].pc \in {"addcu", "held"}
+Holding(r) == rs[r].pc \in {"addcu", "addcu2", "held"}
 SessOf(r)  == <<rs[r].p, rs[r].e, rs[r].sid>>
 
 TypeOK ==
@@ -426,7 +445,7 @@ BlockedRule == \A r \in Relays : rs[r].fromBlk => rs[r].sawEmpty
 RelayNumMono ==
   [][\A o \in Objs : \A i \in 1..Len(sess[o]) :
         /\ sess'[o][i].rn >= sess[o][i].rn
-        /\ (sess[o][i].lk # 0 /\ rs[sess[o][i].lk].pc = "addcu" /\ rs'[sess[o][i].lk].pc = "held")
+        /\ (sess[o][i].lk # 0 /\ rs[sess[o][i].lk].pc \in {"addcu", "addcu2"} /\ rs'[sess[o][i].lk].pc = "held")
               => sess'[o][i].rn = sess[o][i].rn + 1]_vars
 
 \* NOT an invariant of the code (documented quirk, see notes): the per-router-key cache of valid addresses can be stale,
